@@ -542,7 +542,7 @@ impl Ctx {
         ev.set("wall_s", J::Num((wall * 1000.0).round() / 1000.0));
         ev.set("violations", J::i(total_viol - known_hits.min(total_viol)));
 
-        if self.replay.is_none() {
+        if self.replay.is_none() && std::env::var_os("VERIF_NO_EVIDENCE").is_none() {
             let edir = root.join("evidence");
             let _ = fs::create_dir_all(&edir);
             let path = edir.join(format!("{}.json", self.id));
